@@ -11,15 +11,18 @@ Vocabulary (Model/Clone.lean, Proofs/Clone*.lean):
                             region `R` leads out of it
   `rng h h'`, `Sn h`        the block of locations allocated between `h` and `h'` / from `h` on
   `NotBlock h h'`           everything else
-  `run k ops`               the store after the edit sequence `ops` (any of the 19 operations of `Op`:
+  `run k ops`               the store after the edit sequence `ops` (any of the 20 operations of `Op`:
                             value edits, in-place edits of lists held by the caller and of their inner
                             lists, renames, attribute / cardinality / dtype changes, new objects, append,
                             remove, new ids, further clones and exports)
   `OpsIn R ops`             every operation of `ops` is applied to objects / lists of `R`
   `Scoped h`                no dangling references in `h`
+  `WF h`                    `Scoped h` and well-typed child lists / parents; holds in every store built by `run`
+  `absTree h n x`           the pure tree below `x` to depth `n` (content, no ids, no handles); `idTree`: with ids
+  `chainSpec h x`           the tree `export_leaf` has to return, computed from the store by walking `parent`
 All theorems hold for every store, object, flag combination and edit sequence: no bound on sizes.
 -/
-import OdmlModel.Proofs.CloneIds
+import OdmlModel.Proofs.CloneChain
 namespace C11
 open Clone
 
@@ -274,5 +277,206 @@ example : OpsIn (Sn hDoc) [.rename 5 "z", .getValues 6, .listInnerSet 2 0 0 "Y",
 /-- `Scoped` is satisfiable by stores that contain objects: the empty store is scoped and cloning keeps it. -/
 example : Scoped (clone (clone empty 0 true false).1 0 true true).1 ∧ (clone (clone empty 0 true false).1 0 true true).1.nN = 2 :=
   ⟨clone_scoped (clone_scoped scoped_empty 0 true false) 0 true true, by decide⟩
+
+/-! ### Well-formedness is an invariant: `Scoped` holds in every reachable store
+
+`WF h` (`Proofs/CloneScoped.lean`): no dangling references (`Scoped h`) and the typing the code enforces
+through `SmartList(BaseSection)` / `SmartList(BaseProperty)` and the checks of `append`: `_sections` holds
+Sections, `_props` holds Properties, the parent of a Property is a Section, the parent of a Section a
+Section or a Document. -/
+
+/-- `Scoped` (no dangling references) is preserved by EVERY operation, with any arguments (`step`
+    refuses handles that were never allocated). -/
+theorem step_scoped {h : H} (sc : Scoped h) (op : Op) : Scoped (step h op).1 := step_scoped' sc op
+
+/-- ... hence by every operation list. -/
+theorem run_scoped {h : H} (sc : Scoped h) (ops : List Op) : Scoped (run h ops) := run_scoped' sc ops
+
+/-- The same for the full well-formedness (references allocated, child lists and parents well-typed). -/
+theorem step_wf {h : H} (wf : WF h) (op : Op) : WF (step h op).1 := step_wfg wf op
+
+theorem run_wf {h : H} (wf : WF h) (ops : List Op) : WF (run h ops) := run_wfg ops h wf
+
+/-- Every store built from nothing by any operation list is well-formed, in particular `Scoped`. -/
+theorem reachable_wf (ops₀ : List Op) : WF (run empty ops₀) ∧ Scoped (run empty ops₀) :=
+  ⟨run_empty_wf ops₀, run_empty_scoped ops₀⟩
+
+/-- `edit_original_preserves_copy` for every reachable store, without the hypothesis `Scoped`: build any
+    store (`ops₀` from the empty store), clone any object of it, then apply ANY operation list to
+    anything but the copy: the block of the copy is unchanged. -/
+theorem edit_original_preserves_copy_reachable (ops₀ : List Op) {h' : H} {x c : Nat} {children keep : Bool}
+    (hc : clone (run empty ops₀) x children keep = (h', .ok c)) (ops : List Op)
+    (ho : OpsIn (NotBlock (run empty ops₀) h') ops) :
+    BlockSame (run empty ops₀) h' h' (run h' ops) :=
+  edit_original_preserves_copy (run_empty_scoped ops₀) hc ops ho
+
+/-- The same for `export_leaf`. -/
+theorem edit_original_preserves_export_reachable (ops₀ : List Op) {h' : H} {x r : Nat}
+    (he : exportLeaf (run empty ops₀) x = (h', .ok r)) (ops : List Op)
+    (ho : OpsIn (NotBlock (run empty ops₀) h') ops) :
+    BlockSame (run empty ops₀) h' h' (run h' ops) :=
+  edit_original_preserves_export (run_empty_scoped ops₀) he ops ho
+
+/-- ... and for the list returned by `values`. -/
+theorem store_edits_preserve_values_got_reachable (ops₀ : List Op) (p : Nat) (ops : List Op)
+    (ho : OpsIn (NotBlock (run empty ops₀) (getValues (run empty ops₀) p).1) ops) :
+    BlockSame (run empty ops₀) (getValues (run empty ops₀) p).1 (getValues (run empty ops₀) p).1
+      (run (getValues (run empty ops₀) p).1 ops) :=
+  store_edits_preserve_values_got (run_empty_scoped ops₀) p ops ho
+
+/-! ### Equality of the whole tree of a clone
+
+`absTree h n x` (`Proofs/CloneTree.lean`): the pure tree below `x` unfolded to depth `n`: kind, name, all
+compared attributes, `_merged`, the values a Property denotes (tuples by content), child Sections and
+Properties in order - no ids, no handles.  `idTree h n x`: the same with the id at every position.
+Equality for every depth `n` is equality of the (finite) trees. -/
+
+/-- `clone()` returns an object EQUAL to the original at every depth (ids ignored); with
+    `children=False`: equal root fields and no children.  The original denotes the same tree after the
+    call as before. -/
+theorem clone_tree_equal {h h' : H} {x c : Nat} {children keep : Bool} (wf : WF h) (hx : x < h.nN)
+    (hc : clone h x children keep = (h', .ok c)) (n : Nat) :
+    absTree h' n c = (if children = true then absTree h n x else absTree h 0 x) ∧
+    absTree h' n x = absTree h n x := by
+  have h0 := dropOnErr_ok hc
+  exact ⟨cloneF_tree false wf _ h x children keep h' c (Ext.refl h) hx (fun e => by cases e) h0 n,
+    absG_ext wf (cloneF_spec _ h x children keep h' c h0).ext false n x hx⟩
+
+/-- With `keep_id` EVERY object of the copy has the id of the object it was copied from: the trees
+    with the id at every position are equal. -/
+theorem clone_ids_kept {h h' : H} {x c : Nat} {children : Bool} (wf : WF h) (hx : x < h.nN)
+    (hc : clone h x children true = (h', .ok c)) (n : Nat) :
+    idTree h' n c = (if children = true then idTree h n x else idTree h 0 x) :=
+  cloneF_tree true wf _ h x children true h' c (Ext.refl h) hx (fun _ => rfl) (dropOnErr_ok hc) n
+
+/-- Without `keep_id` the id at EVERY position of the tree of the copy was generated during the call
+    and differs from every id in use (`clone_ids_fresh`, position-wise). -/
+theorem clone_ids_fresh_tree {h h' : H} {x c : Nat} {children : Bool}
+    (hc : clone h x children false = (h', .ok c)) (n : Nat) :
+    (idTree h' n c).AllIds (fun i => h.nextId ≤ i ∧ ∀ b, b < h.nN → (h.node b).id < h.nextId → i ≠ (h.node b).id) := by
+  have ok := cloneF_spec _ h x children false h' c (dropOnErr_ok hc)
+  exact absG_allIds (tclosed_block ok.closed) (fun a ha => clone_ids_fresh hc a ha.1 ha.2) n c
+    ⟨by rw [ok.c_eq]; exact Nat.le_refl _, by rw [ok.c_eq]; exact ok.lt⟩
+
+/-- Tree equality for every reachable store (no well-formedness hypothesis): build any store, clone any
+    object of it with its children. -/
+theorem clone_tree_equal_reachable (ops₀ : List Op) {h' : H} {x c : Nat} {keep : Bool}
+    (hx : x < (run empty ops₀).nN) (hc : clone (run empty ops₀) x true keep = (h', .ok c)) (n : Nat) :
+    absTree h' n c = absTree (run empty ops₀) n x ∧ (keep = true → idTree h' n c = idTree (run empty ops₀) n x) := by
+  refine ⟨by simpa using (clone_tree_equal (run_empty_wf ops₀) hx hc n).1, fun hk => ?_⟩
+  subst hk
+  simpa using clone_ids_kept (run_empty_wf ops₀) hx hc n
+
+/-- Independence in terms of trees: after ANY operation list applied to anything but the copy, the
+    copy still denotes the tree the original had when it was cloned. -/
+theorem edit_original_preserves_copy_tree {h h' : H} {x c : Nat} {keep : Bool} (wf : WF h) (hx : x < h.nN)
+    (hc : clone h x true keep = (h', .ok c)) (ops : List Op) (ho : OpsIn (NotBlock h h') ops) (n : Nat) :
+    absTree (run h' ops) n c = absTree h n x := by
+  have ok := cloneF_spec _ h x true keep h' c (dropOnErr_ok hc)
+  have bs := edit_original_preserves_copy wf.scoped hc ops ho
+  have e1 : absTree (run h' ops) n c = absTree h' n c :=
+    absG_block false ok.closed bs n c (by rw [ok.c_eq]; exact Nat.le_refl _) (by rw [ok.c_eq]; exact ok.lt)
+  rw [e1]
+  simpa using (clone_tree_equal wf hx hc n).1
+
+/-- ... and after ANY operation list applied to the copy, the original still denotes the tree it had. -/
+theorem edit_copy_preserves_original_tree {h h' : H} {x c : Nat} {children keep : Bool} (wf : WF h) (hx : x < h.nN)
+    (hc : clone h x children keep = (h', .ok c)) (ops : List Op) (ho : OpsIn (Sn h) ops) (n : Nat) :
+    absTree (run h' ops) n x = absTree h n x := by
+  obtain ⟨b1, b2, b3⟩ := edit_copy_preserves_original hc ops ho
+  exact absG_frame false (tclosed_wf wf) (fun a ha => TSame.of_eq (b1 a ha)) b2 b3 n x hx
+
+/-- An ill-typed store no operation list builds: a Section whose `_sections` holds a Property. -/
+def hIll : H :=
+  { empty with
+    node := fun i =>
+      if i = 0 then { kind := .sec, name := "s", id := 0, attrs := [], parent := none, secs := [1], props := [],
+                      vals := none, merged := none }
+      else { kind := .prop, name := "p", id := 1, attrs := [], parent := some 0, secs := [], props := [],
+             vals := none, merged := none },
+    nN := 2, nextId := 2 }
+
+/-- The hypothesis `WF` of `clone_tree_equal` cannot be dropped for arbitrary stores: on `hIll` (free of
+    dangling references, but ill-typed - the code's `SmartList(BaseSection)` refuses such a child) the
+    clone succeeds and denotes a different tree: the Property listed as a Section is appended to the
+    `_props` of the copy, which are then re-created. `reachable_wf`: no operation list builds such a store. -/
+theorem clone_tree_equal_illtyped_counterexample :
+    Scoped hIll ∧ ¬ WF hIll ∧ (clone hIll 0 true false).2 = .ok 2 ∧
+    absTree (clone hIll 0 true false).1 1 2 ≠ absTree hIll 1 0 := by
+  refine ⟨⟨fun a ha _ => ?_, fun c hc _ => ?_⟩, fun wf => ?_, by decide, fun e => ?_⟩
+  · have : a = 0 ∨ a = 1 := by simp [Old, hIll] at ha; omega
+    rcases this with rfl | rfl
+    · exact ⟨fun _ p hp => by simp [hIll] at hp, fun _ c hc => by simp [hIll] at hc; subst hc; simp [Old, hIll],
+        fun _ c hc => by simp [hIll] at hc, fun hk => by simp [hIll] at hk⟩
+    · exact ⟨fun _ p hp => by simp [hIll] at hp; subst hp; simp [Old, hIll], fun hk => by simp [hIll] at hk,
+        fun hk => by simp [hIll] at hk, fun _ c hc => by simp [hIll] at hc⟩
+  · simp [Old, hIll, empty] at hc
+  · have := ((wf.node 0 (by decide)).2.1 (by decide) 1 (by decide)).2 rfl
+    revert this; decide
+  · have h1 : ((clone hIll 0 true false).1.node 2).secs = [] := by decide
+    have h2 : ((clone hIll 0 true false).1.node 2).kind = .sec := by decide
+    have h3 : (hIll.node 0).secs = [1] := by decide
+    have h4 : (hIll.node 0).kind = .sec := by decide
+    simp only [absG, rootT, h1, h2, h3, h4] at e
+    injection e with _ _ _ _ _ _ e7 _
+    simp at e7
+
+/-! ### The shape of the result of export_leaf()
+
+`chainSpec h x` (`Proofs/CloneChain.lean`) is computed from the store alone by walking `parent` from the
+start object (`x`, for a Property its parent Section) up to the root: the root of the tree is the copy of
+the root of the chain, every chain object has the fields AND THE ID of the original, copies of ALL its
+Properties with their ids (`chainNode`), and exactly one child Section: the next lower chain element;
+the start object has none (`chainTree`). -/
+
+/-- `export_leaf()` returns exactly the chain from the root down to the object (for a Property: to its
+    Section), with all Properties of each Section on it and the original ids.  `idTree h' n r` for
+    every depth `n` from `fuelOf h` (more than the length of any chain) on IS the specified tree. -/
+theorem export_leaf_chain {h h' : H} {x r s : Nat} (wf : WF h) (hx : x < h.nN)
+    (hs : exportStart h x = some s) (he : exportLeaf h x = (h', .ok r)) :
+    ∃ t, chainSpec h x = some t ∧ ∀ n, fuelOf h ≤ n → idTree h' n r = t :=
+  exportLeafF_chain wf hx hs (dropOnErr_ok he)
+
+/-- The remaining case, a Property without a parent: the export is a copy of the Property with its id. -/
+theorem export_leaf_detached_property {h h' : H} {x r : Nat} (wf : WF h) (hx : x < h.nN)
+    (hs : exportStart h x = none) (he : exportLeaf h x = (h', .ok r)) (n : Nat) :
+    idTree h' n r = idTree h 0 x := by
+  have h0 := dropOnErr_ok he
+  unfold exportStart at hs
+  split at hs
+  · rename_i hk
+    unfold exportLeafF at h0
+    rw [hk] at h0
+    simp only [hs, Prod.mk.injEq, Res.ok.injEq] at h0
+    obtain ⟨rfl, rfl⟩ := h0
+    exact cloneProp_tree true wf h x true (Ext.refl h) hx hk (fun _ => rfl) n
+  · cases hs
+
+/-- The shape theorem for every reachable store (no well-formedness hypothesis). -/
+theorem export_leaf_chain_reachable (ops₀ : List Op) {h' : H} {x r s : Nat} (hx : x < (run empty ops₀).nN)
+    (hs : exportStart (run empty ops₀) x = some s) (he : exportLeaf (run empty ops₀) x = (h', .ok r)) :
+    ∃ t, chainSpec (run empty ops₀) x = some t ∧ ∀ n, fuelOf (run empty ops₀) ≤ n → idTree h' n r = t :=
+  export_leaf_chain (run_empty_wf ops₀) hx hs he
+
+/-! ### The new hypotheses are satisfiable, the new statements are not vacuous -/
+
+/-- `hDoc` (document, section with a 2-tuple Property and a sub-Section) is well-formed ... -/
+example : WF hDoc := run_empty_wf _
+/-- ... cloning its Section with children succeeds and allocates four objects ... -/
+example : 1 < hDoc.nN ∧ (clone hDoc 1 true true).2 = .ok 4 ∧ (clone hDoc 1 true true).1.nN = 7 := by decide
+/-- ... exporting the Property (2) starts at its Section (1), the chain is Section, Document ... -/
+example : exportStart hDoc 2 = some 1 ∧ chainUp hDoc (fuelOf hDoc) 1 = some [1, 0] ∧ (exportLeaf hDoc 2).2 = .ok 6 := by
+  decide
+/-- ... a parentless Property is the case of `export_leaf_detached_property` ... -/
+example : exportStart hTuple 0 = none ∧ (exportLeaf hTuple 0).2 = .ok 1 := by decide
+/-- ... and edits of the original after the clone are operations outside the block of the copy. -/
+example : OpsIn (NotBlock hDoc (clone hDoc 1 true true).1) [.rename 3 "z", .setValuesLits 2 [.tup ["x", "y"]], .newId 1] := by
+  intro op hop
+  simp only [List.mem_cons, List.mem_nil_iff, or_false] at hop
+  rcases hop with rfl | rfl | rfl <;> constructor <;> intro a ha <;>
+    simp [Op.objs, Op.lists] at ha <;> subst ha <;> simp only [NotBlock] <;> decide
+
+/-- the specified export tree of `hDoc` for the Property exists -/
+example : (chainSpec hDoc 2).isSome = true := by decide
 
 end C11
